@@ -176,7 +176,7 @@ def replay_idman(**cex):
 # ---------------------------------------------------------------- (2) object level, E1
 
 IDS = [-5, -1, 0, 1, 2, 7]
-OPS = ["ent", "brush", "brush_ent", "copy_ent", "copy_brush", "remove_ent", "remove_brush", "drop_refs", "copy_other_map", "visgroup", "group", "node", "set_nodeid"]
+OPS = ["ent", "brush", "brush_ent", "copy_ent", "copy_brush", "remove_ent", "remove_brush", "drop_refs", "copy_other_map", "visgroup", "group", "node", "set_nodeid", "bad_side"]
 
 
 def _live_ids(v):
@@ -265,6 +265,13 @@ def _apply(v, other, held, op, idx):
         nodes = [e for e in v.entities if "nodeid" in e]
         if nodes:
             nodes[idx % len(nodes)]["nodeid"] = str(want)
+    elif op == "bad_side":
+        # a creation that is rejected (wrong number of plane points) must not disturb the id managers
+        try:
+            vmf.Side(v, [Vec(0, 0, 0), Vec(1, 0, 0)])
+        except ValueError:
+            pass
+        gc.collect()
     elif op == "visgroup":
         g = v.create_visgroup("g")
         held.append(g)
